@@ -86,6 +86,46 @@ def run(ctx):
             if not same_before or v1.units != "volts" or v2.units != "amps" or (v1 == v2) or dict(v1.extended_properties).get("NI_UnitDescription") != "volts":
                 ctx.violation(what="assigning the units of one Vector changed another Vector (shared property storage)", items=str(items), how=how,
                               observed=f"v1.units={v1.units!r} v2.units={v2.units!r} equal={v1 == v2}", required="v1 volts, v2 amps, not equal")
+    # the whole table target value type x item type x kind of container that delivers the items x operation: accepted exactly when
+    # every item is an instance of the target's value type (bool items in an int vector: yes; int items in a bool vector: no)
+    SAMPLE = {"b": [True, False], "i": [7, 8], "f": [1.5, 2.5], "s": ["p", "q"]}
+    def containers(items):
+        out = [("list", list(items)), ("tuple", tuple(items)), ("generator", (x for x in items)), ("iterator", iter(list(items))), ("map", map(lambda x: x, list(items))),
+               ("dict-keys", dict.fromkeys(items).keys())]
+        try:
+            out.append(("vector", Vector(list(items))))
+        except Exception:  # noqa: BLE001
+            pass
+        return out
+    for tt in "bifs":
+        for st_ in "bifs":
+            ok_expected = all(isinstance(x, TYPES[tt]) for x in SAMPLE[st_])
+            for cname, _c in containers(SAMPLE[st_]):
+                for opn in ("setslice", "setslice-empty-selection", "extend", "iadd", "setslice-step"):
+                    cont = dict(containers(SAMPLE[st_]))[cname]
+                    v = Vector(list(SAMPLE[tt]))
+                    before = list(v)
+                    if opn == "setslice": r = outcome(lambda: v.__setitem__(slice(0, 1), cont)); want = SAMPLE[st_] + before[1:]
+                    elif opn == "setslice-empty-selection": r = outcome(lambda: v.__setitem__(slice(1, 1), cont)); want = before[:1] + SAMPLE[st_] + before[1:]
+                    elif opn == "setslice-step": r = outcome(lambda: v.__setitem__(slice(None, None, 1), cont)); want = list(SAMPLE[st_])
+                    elif opn == "extend": r = outcome(lambda: v.extend(cont)); want = before + SAMPLE[st_]
+                    elif opn == "iadd":
+                        def f():
+                            w_ = v; w_ += cont
+                        r = outcome(f); want = before + SAMPLE[st_]
+                    else:
+                        r = outcome(lambda: Vector(cont, value_type=TYPES[tt])); want = list(SAMPLE[st_])
+                    got = list(r[1]) if (opn == "ctor-after" and r[0] == "ok") else list(v)
+                    ctx.case(("type-table", tt, st_, cname, opn))
+                    if ok_expected:
+                        if r[0] != "ok" or got != want or [type(x) for x in got] != [type(x) for x in want]:
+                            ctx.violation(what="items of the value type were refused / changed", target=TYPES[tt].__name__, items=str(SAMPLE[st_]), container=cname, op=opn,
+                                          observed=show(r)[:120] if r[0] != "ok" else str(got), required=str(want))
+                    else:
+                        stored = [x for x in got if not isinstance(x, TYPES[tt])]
+                        if not (r[0] == "err" and r[1] == "TypeError") or stored:
+                            ctx.violation(what="items that are not instances of the value type were accepted", target=TYPES[tt].__name__, items=str(SAMPLE[st_]), container=cname, op=opn,
+                                          observed=(show(r)[:120] + f" -> {got}"), required="TypeError, nothing of the wrong type stored")
     n_hist = 250 if ctx.quick else 8000
     for h in range(n_hist):
         t = rng.choice("bifs")
@@ -157,6 +197,11 @@ def run(ctx):
                 refused_ok = not isinstance(x, vtype) or outcome(lambda: list(l).__setitem__(ii, x))[0] == "err"
             elif op == "setslice":
                 xs = [anyv() for _ in range(rng.randint(0, 4))]
+                if rng.random() < 0.2:
+                    # a homogeneous replacement of ANOTHER type (so that it can also arrive as a Vector of that type):
+                    # ints for a bool vector, bools for an int vector, floats for ints ...
+                    ot = rng.choice("bifs")
+                    xs = [val(ot) for _ in range(rng.randint(1, 3))]
                 src, kind = src_kind(xs)
                 r = outcome(lambda: v.__setitem__(slice(*sl), src)); line = f"vsetslice {fmt(sl[0])} {fmt(sl[1])} {fmt(sl[2])} [{','.join(enc(x) for x in xs)}]"
                 lr = outcome(lambda: l.__setitem__(slice(*sl), list(xs))) if r[0] == "ok" else None
@@ -184,6 +229,9 @@ def run(ctx):
                 lr = outcome(lambda: l.append(x)) if r[0] == "ok" else None
             elif op in ("extend", "iadd"):
                 xs = [anyv() for _ in range(rng.randint(0, 4))]
+                if rng.random() < 0.2:
+                    ot = rng.choice("bifs")
+                    xs = [val(ot) for _ in range(rng.randint(1, 3))]
                 src, kind = src_kind(xs)
                 if op == "extend":
                     r = outcome(lambda: v.extend(src))
